@@ -2,7 +2,7 @@
    code applies them, keep the tiling PlainEnglish::parse establishes, never panic, and keep / establish
    the lexical shape of every token kind (C02_document_tiling, C02_document_shape). *)
 Require Import Base Overlap OverlapProofs Tables_lexer Lexer Condense ListLemmas TokenInv CondenseInv LexerProofs
-  CondPatterns3 CondPattern CondSpaces CondInitialisms CondSuffixQuotes Shape.
+  CondPatterns3 CondPattern CondSpaces CondInitialisms CondSuffixQuotes Shape NumberFinite.
 From Coq Require Import Lia ZArith.
 
 (* ================= a Grouped pass carries a per-token invariant Q to Q' ================= *)
@@ -642,6 +642,48 @@ Proof.
   - intros c _. reflexivity.
   - reflexivity.
 Qed.
+
+(* ================= b5c1992: no decimal Number token carries a value that overflows f64 ================= *)
+Definition number_finite (t : token) : Prop :=
+  match tkind_of t with
+  | KNumber nb => n_radix nb = 10 -> below_overflow (n_mant nb) (n_exp10 nb)
+  | _ => True
+  end.
+
+Lemma shape_number_finite u s e src ts : Shape u s e src ts -> Forall number_finite ts.
+Proof.
+  intros H. eapply Forall_impl; [|exact H]. intros t [_ K]. unfold number_finite.
+  destruct (tkind_of t) as [ |p| |nb|sn|n| | | | | | ]; try exact I.
+  cbn [kind_shape] in K. unfold number_shape in K. intros R.
+  assert (lit_denotes nb (tok_text src t) \/ exists lit, lit_denotes nb lit) as [D|[lit D]].
+  { destruct (n_suffix nb); [right|left; exact K]. destruct K as [_ [lit [a [b [_ [D _]]]]]]. exists lit. exact D. }
+  - destruct D as [[_ [_ [F _]]]|[R16 _]]; [apply f64_finite_spec; exact F|rewrite R in R16; discriminate].
+  - destruct D as [[_ [_ [F _]]]|[R16 _]]; [apply f64_finite_spec; exact F|rewrite R in R16; discriminate].
+Qed.
+
+Theorem document_numbers_finite u (laws : uni_laws u) s :
+  exists ts, document_plain u s = Ok ts /\ Forall number_finite ts.
+Proof.
+  destruct (document_plain_ok u laws s) as [ts [E [_ [S _]]]]. exists ts. split; [exact E|].
+  eapply shape_number_finite. exact S.
+Qed.
+
+(* history (F16, repaired by b5c1992): `1e999` used to be ONE Number token whose f64 is +infinity; now the
+   longest FINITE prefix `1e99` is taken and the last `9` is a number of its own *)
+Theorem number_overflow_witness :
+  plain_parse ascii_uni [49; 101; 57; 57; 57]%N
+  = Ok [mktok (mkspan 0 4) (KNumber (mknumber false 1 99%Z None 10 0));
+        mktok (mkspan 4 5) (KNumber (mknumber false 9 0%Z None 10 0))]
+  /\ parse_f64 [49; 101; 57; 57; 57]%N = Some (false, 1%N, 999%Z) /\ f64_finite 1 999 = false.
+Proof. vm_compute. repeat split; reflexivity. Qed.
+
+(* history (FC17a, repaired by dcfd71f): number suffixes are attached BEFORE contractions are condensed, so
+   `2st's` is Number(2, st) ' s  — with the old order the contraction `st's` formed first and no suffix was set *)
+Theorem suffix_before_contraction_witness :
+  document_plain ascii_uni [50; 115; 116; 39; 115]%N
+  = Ok [mktok (mkspan 0 3) (KNumber (mknumber false 2 0%Z (Some SufSt) 10 0));
+        mktok (mkspan 3 4) (KPunct PApostrophe); mktok (mkspan 4 5) KWord].
+Proof. vm_compute. reflexivity. Qed.
 
 Print Assumptions document_plain_ok.
 Print Assumptions document_plain_tiling.
